@@ -1469,7 +1469,7 @@ class RTCSctpTransport(AsyncIOEventEmitter):
         if state == self.State.ESTABLISHED:
             self.__state = "connected"
             for channel in list(self._data_channels.values()):
-                if channel.negotiated and channel.readyState != "open":
+                if channel.negotiated and channel.readyState == "connecting":
                     channel._setReadyState("open")
             asyncio.ensure_future(self._data_channel_flush())
         elif state == self.State.CLOSED:
@@ -1892,9 +1892,10 @@ class RTCSctpTransport(AsyncIOEventEmitter):
                 # emit channel
                 self.emit("datachannel", channel)
             elif msg_type == DATA_CHANNEL_ACK:
-                assert stream_id in self._data_channels
-                channel = self._data_channels[stream_id]
-                channel._setReadyState("open")
+                # the channel may have been closed in the meantime
+                channel = self._data_channels.get(stream_id)
+                if channel is not None and channel.readyState == "connecting":
+                    channel._setReadyState("open")
         elif pp_id == WEBRTC_STRING and stream_id in self._data_channels:
             # emit message
             self._data_channels[stream_id].emit("message", data.decode("utf8"))
